@@ -35,7 +35,22 @@ func mapRangeSitesOf(rel string) [][3]string {
 				if rs, ok := n.(*ast.RangeStmt); ok {
 					if tv, ok := info.Types[rs.X]; ok && tv.Type != nil {
 						if _, isMap := tv.Type.Underlying().(*types.Map); isMap {
-							out = append(out, [3]string{name, key, nodeText(im.fset, rs.X)})
+							// the calls made in the loop body are part of the fact: a call with a
+							// side effect (say, one that hands out import names) makes the iteration
+							// order observable even if what the loop collects is sorted afterwards
+							calls := map[string]bool{}
+							ast.Inspect(rs.Body, func(b ast.Node) bool {
+								if ce, ok := b.(*ast.CallExpr); ok {
+									calls[nodeText(im.fset, ce.Fun)] = true
+								}
+								return true
+							})
+							var cs []string
+							for c := range calls {
+								cs = append(cs, c)
+							}
+							sort.Strings(cs)
+							out = append(out, [3]string{name, key, nodeText(im.fset, rs.X) + " | body calls: " + strings.Join(cs, ", ")})
 						}
 					}
 				}
